@@ -1,3 +1,74 @@
 import Rustemo.Props.C05
+import Rustemo.Props.C09
+/-!
+# C16 — the compiler is total: any grammar text gives a parser or a diagnostic
+
+PARTIAL.  The compiler is a pipeline  text → AST → grammar (builder) → LR items/lookaheads → cells
+(conflict resolution) → generated code.  Two stages are modelled in Lean with every
+`unwrap / expect / assert! / todo! / index` as an explicit `panic` outcome, and their totality is
+proved here for the code as it is in `/repo` (`Front.repoVariant`, `Resolve.Fixes.current`):
+
+* the grammar builder (`Front.build`, C09's model): no panic outside two decidable classes of texts,
+  each of which is a recorded known finding with a proved witness;
+* conflict resolution of one cell (`Resolve.cell`, C05's model): never a panic.
+
+The parser of the grammar language (an instance of C15), the item-set construction and the code
+generators are not modelled; for them C16 is decided by the differential run only (the real
+`Settings::process_grammar` under `catch_unwind` on the repository's grammars, hand-written broken
+texts and token/byte-level mutations).
+-/
 namespace Rustemo.Props.C16
+open Rustemo.Front
+
+/-- **Builder totality for the code in `/repo`**: a `File` AST whose integer literals fit `u32`, that
+has no rule that is its own repetition helper (`A1: … A+ …`, finding F5b) and is not one of the two
+AST shapes no text produces (an empty rule list, a rule without alternatives) is never answered by a
+panic: `Front.build` returns a grammar or a diagnostic. -/
+theorem C16_front_end_total (f : File)
+    (hint : f.big u32Max = false) (hself : f.selfHelper repoVariant = false)
+    (h2 : (f.rules == some []) = false) (h3 : (f.ruleList.any fun r => r.alts.isEmpty) = false) :
+    ∀ s, build repoVariant f ≠ .panic s :=
+  Rustemo.Props.C09.C16_build_total_partial repoVariant f
+    (Rustemo.Props.C09.C16_safe_of_classes repoVariant f
+      (by simp [hint]) (by simp [repoVariant]) h2 h3 (by simp [repoVariant]) (by simp [repoVariant])
+      (by simp [repoVariant]) (by simp [repoVariant]) hself)
+
+/-- the two classes excluded above do panic (so the hypotheses cannot be dropped): the witnesses of the
+known findings `F9-int-const-panic` and `F5b-self-helper-index-gap`; every other historic front-end
+panic is a diagnostic now -/
+theorem C16_front_end_open_panics :
+    build repoVariant Rustemo.Front.Ex.fBigInt = .panic .intConst ∧
+    build repoVariant Rustemo.Front.Ex.fSelf = .panic .reachIndex ∧
+    build repoVariant Rustemo.Front.Ex.fTermsOnly = .err .noRules ∧
+    build repoVariant Rustemo.Front.Ex.fGroup = .err .notImplemented ∧
+    build repoVariant Rustemo.Front.Ex.fGreedy = .err .notImplemented ∧
+    build repoVariant Rustemo.Front.Ex.fMods = .err .notImplemented := by decide
+
+/-- what the builder hands to the later stages: no production references `STOP` (so the `STOP` column
+of the table holds no SHIFT: the "at most one SHIFT or ACCEPT per cell" premise of
+`C16_resolution_total` is not broken by the grammar text) and every production kind is a Rust
+identifier (the generator's `format_ident!` on kinds cannot panic) -/
+theorem C16_builder_output_safe (f : File) (g : Front.Grammar) (h : build repoVariant f = .ok g) :
+    (∀ p, p ∈ g.prods → ∀ a, a ∈ p.rhs → a.sym ≠ .name kSTOP) ∧
+    (∀ p, p ∈ g.prods → ∀ k, p.kind = some k → identOk k = true) :=
+  ⟨Rustemo.Props.C09.C16_no_stop_reference repoVariant f g (by decide) h,
+   Rustemo.Props.C09.C16_kinds_are_identifiers repoVariant f g (by decide) h⟩
+
+/-- **Conflict resolution is total** (model of `LRTable::calculate_reductions` for one cell, code as in
+`/repo`): whatever the priorities, associativities, prefer-shift settings and order of reductions,
+the cell computation ends with a cell, never in an assertion or `unreachable!`. -/
+theorem C16_resolution_total (cfg : Rustemo.Resolve.Cfg) (info : Nat → Rustemo.Resolve.PInfo)
+    (ta : Rustemo.Assoc) (sp : Option Nat) (init : List Rustemo.Action)
+    (evs : List Rustemo.Resolve.Ev)
+    (h1 : Rustemo.Resolve.shiftLikes init + Rustemo.Resolve.accepts evs ≤ 1)
+    (h2 : Rustemo.Resolve.SpOk sp init) :
+    ∃ c, Rustemo.Resolve.cell Rustemo.Resolve.Fixes.current cfg info ta sp init evs = .ok c :=
+  Rustemo.Props.C05.C05_resolution_total Rustemo.Resolve.Fixes.current (by decide) cfg info ta sp init evs h1 h2
+
+/-- non-vacuity: the example grammar of C09 (every kind of sugar, meta-data, inline string, EMPTY)
+meets the hypotheses of `C16_front_end_total` -/
+example : Rustemo.Front.Ex.fGood.big u32Max = false ∧ Rustemo.Front.Ex.fGood.selfHelper repoVariant = false ∧
+    (Rustemo.Front.Ex.fGood.rules == some []) = false ∧
+    (Rustemo.Front.Ex.fGood.ruleList.any fun r => r.alts.isEmpty) = false := by decide
+
 end Rustemo.Props.C16
